@@ -61,6 +61,8 @@ SPECS = {
     ],
     "subjects::replay_subject::ReplaySubject": [
         ("items", _m(ARC_LOCK % (r"std::(?:vec::Vec|collections::VecDeque)<" + TP + ">"))),
+        ("was_completed", _m("(?:" + ARC_LOCK % "bool" + "|" + ATOMIC_BOOL + ")")),
+        ("was_error", _m(ARC_LOCK % r"std::option::Option<rx_error::RxError>")),
     ],
     "subjects::subject::Subject": [
         ("observers", _m(ARC_LOCK % (r"std::collections::(?:HashMap|BTreeMap)<(?:i32|i64|u32|u64|usize), observer::Observer<'[a-z_]+, " + TP + r">(?:, [^>]*)?>"))),
